@@ -306,7 +306,8 @@ class Guards:
                         toks.setdefault("Exception", (self._link(fi, n), (g.qname, g.loc(), "extension point: third-party implementation")))
                 if toks:
                     out.append(Site(n, "property", toks))
-            elif isinstance(n, ast.BinOp) and isinstance(n.op, ast.Mod) and not isinstance(n.left, (ast.Constant, ast.BinOp, ast.Call)) \
+            elif isinstance(n, ast.BinOp) and isinstance(n.op, ast.Mod) and not isinstance(n.left, ast.Constant) \
+                    and (not isinstance(n.left, (ast.BinOp, ast.Call)) or any(tt == ("ext", "builtins.str") for tt in self.t.type_of(n.left, fi))) \
                     and not any(tt[0] in ("ext", "extobj") and ("int" in tt[1] or "float" in tt[1] or "time" in tt[1]) for tt in self.t.type_of(n.left, fi)):
                 # %-formatting with a format string that is not a literal: placeholders and arguments may not match
                 out.append(Site(n, "format", {"TypeError": (self._link(fi, n),), "ValueError": (self._link(fi, n),)}))
